@@ -109,9 +109,12 @@ Qed.
 Lemma cumops_check n : may_mutate D 1 (p_cumops D K n) = [].
 Proof. unfold may_mutate, p_cumops. simpl. apply cumops_loop_check. reflexivity. Qed.
 
-Lemma ape_check_f32 (e_longer r64 e64 : bool) :
-  (if e_longer then e64 else r64) = false -> may_mutate D 4 (p_ape D K r64 e64 e_longer) = [].
-Proof. destruct e_longer, r64, e64; intros H; try discriminate; reflexivity. Qed.
+Lemma ape_check (e_longer r64 e64 : bool) : may_mutate D 4 (p_ape D K r64 e64 e_longer) = [].
+Proof. destruct e_longer, r64, e64; reflexivity. Qed.
+Lemma quat2unit_check : may_mutate D 1 (p_quat2unit D K Cnd) = [].
+Proof. reflexivity. Qed.
+Lemma matching_check : may_mutate D 2 (p_matching D K) = [].
+Proof. reflexivity. Qed.
 
 Lemma cg_loop_check has_M : forall n first T,
   T 4 = None -> T 5 = None -> T 6 = None -> T 7 = None -> (first = true \/ T 9 = None) ->
@@ -122,17 +125,17 @@ Proof.
     rewrite ?H4, ?H5, ?H6, ?H7; try (destruct H9 as [H9|H9]; [discriminate|rewrite H9]); simpl;
     apply IHn; simpl; auto.
 Qed.
-Lemma cg_check has_M n : may_mutate D 4 (p_cg D K Cnd false has_M n) = [].
+Lemma cg_check has_x has_M n : may_mutate D 4 (p_cg D K Cnd has_x has_M n) = [].
 Proof.
-  unfold may_mutate, p_cg. destruct has_M; simpl; rewrite !cg_loop_check; auto.
+  unfold may_mutate, p_cg, p_cg_gen. destruct has_x, has_M; simpl; rewrite !cg_loop_check; auto.
 Qed.
 
-(* the three functions the check does report *)
-Lemma quat2unit_reported : may_mutate D 1 (p_quat2unit D K Cnd) = [0].
+(* history: what the check reports for the three functions as they were before the fixes *)
+Lemma quat2unit_old_reported : may_mutate D 1 (p_quat2unit_old D K Cnd) = [0].
 Proof. reflexivity. Qed.
-Lemma matching_reported : may_mutate D 2 (p_matching D K) = [1].
+Lemma matching_old_reported : may_mutate D 2 (p_matching_old D K) = [1].
 Proof. reflexivity. Qed.
-Lemma cg_x0_reported has_M n : In 2 (may_mutate D 4 (p_cg D K Cnd true has_M (S n))).
+Lemma cg_old_x0_reported has_M n : In 2 (may_mutate D 4 (p_cg_old D K Cnd true has_M (S n))).
 Proof. destruct has_M; simpl; unfold may_mutate; simpl; rewrite ?in_app_iff; simpl; auto 10. Qed.
 End EffProofs.
 
@@ -146,17 +149,18 @@ Definition K_matching (offset : Q) (i : nat) (l : list (list Q)) : list Q :=
   | _ => nth 0%nat l []
   end.
 Lemma matching_witness :
-  post_args (list Q) [] (p_matching (list Q) (K_matching 1)) [[0]; [0]] = [[0]; [0 + 1]].
+  post_args (list Q) [] (p_matching_old (list Q) (K_matching 1)) [[0]; [0]] = [[0]; [0 + 1]].
 Proof. reflexivity. Qed.
 
 (* quat2unit: whatever `normalize` returns is written into the caller's tensor *)
 Definition K_quat2unit (normalize : list Q -> list Q) (a b : nat) (i : nat) (l : list (list Q)) : list Q :=
   match i with
   | 0%nat => normalize (firstn (b - a)%nat (skipn a (nth 0%nat l [])))
+  | 2%nat => nth 0%nat l []
   | _ => firstn a (nth 0%nat l []) ++ nth 1%nat l [] ++ skipn b (nth 0%nat l [])
   end.
 Lemma quat2unit_witness (normalize : list Q -> list Q) (zero_detected : nat -> list (list Q) -> bool) (a b : nat) (input : list Q) :
-  post_args (list Q) [] (p_quat2unit (list Q) (K_quat2unit normalize a b) zero_detected) [input]
+  post_args (list Q) [] (p_quat2unit_old (list Q) (K_quat2unit normalize a b) zero_detected) [input]
   = [firstn a input ++ normalize (firstn (b - a)%nat (skipn a input)) ++ skipn b input].
 Proof. unfold post_args, run_prog. simpl. destruct (zero_detected _ _); reflexivity. Qed.
 
@@ -180,7 +184,7 @@ Definition C_cg1 (tol : Q) (i : nat) (l : list (list Q)) : bool :=
   end.
 (* A = [[1]], b = [1], x = [0], M = None (unused slot): the caller's x becomes [1] *)
 Lemma cg_witness :
-  map (map Qred) (post_args (list Q) [] (p_cg (list Q) K_cg1 (C_cg1 (1 # 100000)) true false 10%nat) [[1]; [1]; [0]; []])
+  map (map Qred) (post_args (list Q) [] (p_cg_old (list Q) K_cg1 (C_cg1 (1 # 100000)) true false 10%nat) [[1]; [1]; [0]; []])
   = [[1]; [1]; [1]; []].
 Proof. vm_compute. reflexivity. Qed.
 Close Scope Q_scope.
@@ -188,354 +192,128 @@ Close Scope Q_scope.
 (* ======================================================================================== *)
 (* Part 1: retain_ltype                                                                      *)
 (* ======================================================================================== *)
-Lemma mod_eqb_refl m : mod_eqb m m = true. Proof. destruct m; reflexivity. Qed.
-Lemma attr_eqb_refl a : attr_eqb a a = true. Proof. destruct a; reflexivity. Qed.
-Lemma site_eqb_refl a : site_eqb a a = true. Proof. destruct a; reflexivity. Qed.
-Lemma key_eqb_refl k : key_eqb k k = true.
-Proof. destruct k; unfold key_eqb; simpl. now rewrite mod_eqb_refl, attr_eqb_refl. Qed.
-Lemma mod_eqb_eq a b : mod_eqb a b = true -> a = b. Proof. destruct a, b; simpl; congruence. Qed.
-Lemma attr_eqb_eq a b : attr_eqb a b = true -> a = b. Proof. destruct a, b; simpl; congruence. Qed.
-Lemma site_eqb_eq a b : site_eqb a b = true -> a = b. Proof. destruct a, b; simpl; congruence. Qed.
-Lemma key_eqb_eq a b : key_eqb a b = true -> a = b.
-Proof.
-  destruct a, b; unfold key_eqb; simpl. intros H. apply andb_true_iff in H. destruct H.
-  f_equal; [now apply mod_eqb_eq|now apply attr_eqb_eq].
-Qed.
-Lemma key_eqb_neq a b : a <> b -> key_eqb a b = false.
-Proof. intros H. destruct (key_eqb a b) eqn:E; auto. apply key_eqb_eq in E. contradiction. Qed.
-Lemma fn_eqb_refl f : fn_eqb f f = true.
-Proof. induction f; simpl; [apply site_eqb_refl|]. now rewrite Nat.eqb_refl, IHf. Qed.
-Lemma fn_eqb_eq : forall a b, fn_eqb a b = true -> a = b.
-Proof.
-  induction a; destruct b; simpl; try discriminate; intros H.
-  - f_equal. now apply site_eqb_eq.
-  - apply andb_true_iff in H. destruct H as [H1 H2]. apply Nat.eqb_eq in H1. f_equal; auto.
-Qed.
-
-Lemma fn_eq_dec (a b : fn) : {a = b} + {a <> b}.
-Proof. decide equality; [decide equality | apply Nat.eq_dec]. Qed.
-
-Definition is_wrap (f : fn) : bool := match f with Wrap _ _ => true | _ => false end.
-Definition is_site_key (k : key) : bool := negb (attr_eqb (snd k) A_wrapper).
-
-Lemma getattr_setattr s k f k' :
-  getattr (setattr s k f) k' = if key_eqb k k' then Some f else getattr s k'.
-Proof. reflexivity. Qed.
-Lemma fmod_setattr s k f g : fmod (setattr s k f) g = fmod s g.
-Proof. reflexivity. Qed.
-
-(* the well-formed states: every patched site holds its own original or some closure, and the
-   __module__ of the originals of the first two sites is the module they live in *)
-Definition site_ok (s : pstate) (x : site) : Prop :=
-  exists f, getattr s (site_key x) = Some f /\ (f = Orig x \/ is_wrap f = true).
-Definition wfp (s : pstate) : Prop :=
-  (forall x, site_ok s x) /\ fmod s (Orig S_make_dual) = M_forward_ad /\ fmod s (Orig S_wrap_grad) = M_eager.
-(* once _add_batch_dim.__module__ has been rewritten it stays rewritten *)
-Definition vm (s : pstate) : Prop := fmod s (Orig S_add_batch) = M_vmap.
-(* two states agree on everything observable *)
 Definition same_attrs (s s' : pstate) : Prop := forall k, getattr s' k = getattr s k.
-Definition same_sites (s s' : pstate) : Prop := forall x, getattr s' (site_key x) = getattr s (site_key x).
-Definition same_mods (s s' : pstate) : Prop := forall f, fmod s' f = fmod s f.
+(* the three patched attributes exist (true in any process that has imported torch) *)
+Definition sites_defined (s : pstate) : Prop := forall x, getattr s (site_key x) <> None.
 
-Lemma fn_key_site s f x : fn_key s f = site_key x -> f = Orig x.
-Proof.
-  unfold fn_key. intros H. assert (N : fn_name f = snd (site_key x)) by (rewrite <- H; reflexivity).
-  destruct f as [[]|]; destruct x; simpl in N; try discriminate; reflexivity.
-Qed.
+Lemma site_val_defined s x : sites_defined s -> getattr s (site_key x) = Some (site_val s x).
+Proof. intros H. specialize (H x). unfold site_val. destruct (getattr s (site_key x)); congruence. Qed.
 
-(* module names only ever change to M_vmap, and only for the function found at the third site *)
-Lemma fmod_set_module s f m g :
-  fmod (set_module s f m) g = if fn_eqb f g then m else fmod s g.
-Proof. unfold fmod, set_module. simpl. destruct (fn_eqb f g); reflexivity. Qed.
-
-(* --- patch_all / leave touch only the keys of the functions they are given *)
-Lemma patch_all_fmod : forall fs s g, fmod (patch_all s fs) g = fmod s g.
-Proof. induction fs; intros s g; simpl; auto. rewrite IHfs. reflexivity. Qed.
-
-Lemma patch_all_getattr : forall fs s k,
-  (forall f, In f fs -> fn_key s f <> k) -> getattr (patch_all s fs) k = getattr s k.
-Proof.
-  induction fs as [|f fs IH]; intros s k H; simpl; auto.
-  rewrite IH.
-  - unfold getattr. simpl. rewrite key_eqb_neq; auto. apply H. now left.
-  - intros g Hg. unfold fn_key. simpl. apply (H g). now right.
-Qed.
-
-Lemma patch_all_getattr_wrap : forall fs s k f',
-  getattr (patch_all s fs) k = Some f' -> getattr s k = Some f' \/ is_wrap f' = true.
-Proof.
-  induction fs as [|f fs IH]; intros s k f' H; simpl in *; auto.
-  apply IH in H. destruct H as [H|H]; auto.
-  unfold getattr in H. simpl in H. destruct (key_eqb (fn_key s f) k); auto.
-  inversion H; subst. right; reflexivity.
-Qed.
-
-Lemma patch_all_getattr_some : forall fs s k f0,
-  getattr s k = Some f0 -> exists f', getattr (patch_all s fs) k = Some f'.
-Proof.
-  induction fs as [|f fs IH]; intros s k f0 H; simpl; eauto.
-  destruct (key_eqb (fn_key s f) k) eqn:E.
-  - eapply IH. unfold getattr. simpl. rewrite E. reflexivity.
-  - eapply IH. unfold getattr. simpl. rewrite E. exact H.
-Qed.
-
-Lemma leave_fmod : forall fs s g, fmod (leave s fs) g = fmod s g.
-Proof. induction fs; intros s g; simpl; auto. rewrite IHfs. reflexivity. Qed.
-
-Lemma leave_getattr_other : forall fs s k,
-  (forall f, In f fs -> fn_key s f <> k) -> getattr (leave s fs) k = getattr s k.
-Proof.
-  induction fs as [|f fs IH]; intros s k H; simpl; auto.
-  rewrite IH.
-  - rewrite getattr_setattr, key_eqb_neq; auto. apply H. now left.
-  - intros g Hg. unfold fn_key. rewrite fmod_setattr. apply (H g). now right.
-Qed.
-
-(* if every function that is written back to key k is the same f, k holds f afterwards *)
-Lemma leave_getattr_same : forall fs s k f,
-  In f fs -> fn_key s f = k -> (forall g, In g fs -> fn_key s g = k -> g = f) ->
-  getattr (leave s fs) k = Some f.
-Proof.
-  induction fs as [|g fs IH]; intros s k f Hin Hk Hu; simpl; [contradiction|].
-  destruct (in_dec fn_eq_dec f fs) as [Hf|Hf].
-  - apply IH; auto.
-    intros h Hh Hhk. apply Hu; auto. now right.
-  - destruct Hin as [->|Hin]; [|contradiction].
-    rewrite leave_getattr_other.
-    + rewrite getattr_setattr. now rewrite Hk, key_eqb_refl.
-    + intros h Hh Hhk. apply Hf.
-      rewrite (Hu h) in Hh; auto. now right.
-Qed.
-
-Lemma key_eq_dec (a b : key) : {a = b} + {a <> b}.
-Proof. decide equality; decide equality. Qed.
-
-Lemma site_eq_dec (a b : site) : {a = b} + {a <> b}.
-Proof. decide equality. Qed.
-
-Lemma site_val_get s x : site_ok s x ->
-  getattr s (site_key x) = Some (site_val s x) /\ (site_val s x = Orig x \/ is_wrap (site_val s x) = true).
-Proof. intros (f & Hf & Hk). unfold site_val. rewrite Hf. auto. Qed.
-
-Lemma set_module_getattr s f m k : getattr (set_module s f m) k = getattr s k.
-Proof. reflexivity. Qed.
-
-(* a function taken from the sites can only be written to the site it came from *)
-Lemma funcs_key_site s ord x : (forall y, site_ok s y) ->
-  forall f s', In f (funcs_of s ord) -> fn_key s' f = site_key x -> In x ord /\ site_val s x = Orig x /\ f = Orig x.
-Proof.
-  intros W f s' Hin Hk. apply fn_key_site in Hk. subst f.
-  unfold funcs_of in Hin. apply in_map_iff in Hin. destruct Hin as (y & Hy & Hin).
-  destruct (site_val_get s y (W y)) as [_ [E|E]].
-  - rewrite E in Hy. inversion Hy; subst. auto.
-  - rewrite Hy in E. discriminate.
-Qed.
-
-Lemma enter_fmod s ord g :
-  fmod (fst (enter s ord)) g = if fn_eqb (site_val s S_add_batch) g then M_vmap else fmod s g.
-Proof. unfold enter. simpl. rewrite patch_all_fmod. apply fmod_set_module. Qed.
-
-Lemma enter_wfp s ord : wfp s ->
-  wfp (fst (enter s ord)) /\ (site_val s S_add_batch = Orig S_add_batch -> vm (fst (enter s ord))) /\
-  (vm s -> vm (fst (enter s ord))).
-Proof.
-  intros (W & M0 & M1).
-  destruct (site_val_get s S_add_batch (W S_add_batch)) as [_ V2].
-  assert (N0 : fn_eqb (site_val s S_add_batch) (Orig S_make_dual) = false).
-  { destruct V2 as [E|E]; [rewrite E; reflexivity|]. destruct (site_val s S_add_batch); [discriminate|reflexivity]. }
-  assert (N1 : fn_eqb (site_val s S_add_batch) (Orig S_wrap_grad) = false).
-  { destruct V2 as [E|E]; [rewrite E; reflexivity|]. destruct (site_val s S_add_batch); [discriminate|reflexivity]. }
-  assert (A : forall x, site_ok (fst (enter s ord)) x).
-  { intros x. destruct (W x) as (f & Hf & Hk).
-    unfold enter. simpl.
-    destruct (patch_all_getattr_some (funcs_of s ord) (set_module s (site_val s S_add_batch) M_vmap) (site_key x) f Hf) as [f' Hf'].
-    exists f'. split; auto.
-    destruct (patch_all_getattr_wrap _ _ _ _ Hf') as [H|H]; auto.
-    rewrite set_module_getattr, Hf in H. inversion H; subst. exact Hk. }
-  assert (B : fmod (fst (enter s ord)) (Orig S_make_dual) = M_forward_ad) by now rewrite enter_fmod, N0.
-  assert (C : fmod (fst (enter s ord)) (Orig S_wrap_grad) = M_eager) by now rewrite enter_fmod, N1.
-  split; [exact (conj A (conj B C))|]. split.
-  - intros E. unfold vm. rewrite enter_fmod, E. reflexivity.
-  - intros V. unfold vm in *. rewrite enter_fmod.
-    destruct (fn_eqb (site_val s S_add_batch) (Orig S_add_batch)); auto.
-Qed.
-
-Lemma enter_sites_other s ord x : (forall y, site_ok s y) ->
-  ~ (In x ord /\ site_val s x = Orig x) ->
-  getattr (fst (enter s ord)) (site_key x) = getattr s (site_key x).
-Proof.
-  intros W H. unfold enter. simpl. rewrite patch_all_getattr; [apply set_module_getattr|].
-  intros f Hin Hk. apply H. destruct (funcs_key_site s ord x W f _ Hin Hk) as (A & B & _). auto.
-Qed.
-
-Lemma site_mod s x : wfp s -> (x = S_add_batch -> vm s) -> fn_key s (Orig x) = site_key x.
-Proof.
-  intros (_ & M0 & M1) V. unfold fn_key. destruct x; simpl; try now rewrite ?M0, ?M1.
-  unfold vm in V. now rewrite V.
-Qed.
-
-(* the heart: leaving restores the site values seen at entry *)
-Lemma leave_sites s ord s2 : wfp s -> wfp s2 ->
-  (site_val s S_add_batch = Orig S_add_batch -> vm s2) ->
-  forall x, getattr (leave s2 (funcs_of s ord)) (site_key x) =
-            if in_dec site_eq_dec x ord then
-              match site_val s x with Orig _ => getattr s (site_key x) | Wrap _ _ => getattr s2 (site_key x) end
-            else getattr s2 (site_key x).
-Proof.
-  intros Ws Ws2 V x. destruct Ws as (W & _).
-  destruct (site_val_get s x (W x)) as [G Vx].
-  assert (Other : ~ (In x ord /\ site_val s x = Orig x) ->
-                  getattr (leave s2 (funcs_of s ord)) (site_key x) = getattr s2 (site_key x)).
-  { intros H. apply leave_getattr_other. intros f Hin Hk. apply H.
-    destruct (funcs_key_site s ord x W f _ Hin Hk) as (A & B & _). auto. }
-  destruct (in_dec site_eq_dec x ord) as [I|I].
-  - destruct Vx as [E|E].
-    + rewrite E. rewrite G, E.
-      apply leave_getattr_same.
-      * unfold funcs_of. apply in_map_iff. exists x. auto.
-      * apply site_mod; auto. intros ->. apply V. exact E.
-      * intros g _ Hk. now apply fn_key_site in Hk.
-    + destruct (site_val s x) eqn:Ev; [discriminate|]. apply Other. intros [_ H]. discriminate.
-  - apply Other. intros [H _]. contradiction.
-Qed.
-
-Lemma run_nest ord inner k s : run (BNest ord inner k) s =
-  let '(s1, fs) := enter s ord in
+Lemma run_nest inner k s : run (BNest inner k) s =
+  let '(s1, saved) := enter s in
   let '(s2, r, t) := run inner s1 in
-  let s3 := leave s2 fs in
+  let s3 := leave s2 saved in
   if r then (s3, true, t) else let '(s4, r', t') := run k s3 in (s4, r', t ++ t').
 Proof. reflexivity. Qed.
 
-Theorem run_inv : forall b s s' r t, run b s = (s', r, t) -> wfp s ->
-  wfp s' /\ same_sites s s' /\ (vm s -> vm s').
+Lemma enter_sites_defined s : sites_defined (fst (enter s)).
+Proof. intros x. destruct x; unfold enter, getattr; simpl; discriminate. Qed.
+
+Lemma enter_other s k : (forall x, k <> site_key x) -> getattr (fst (enter s)) k = getattr s k.
 Proof.
-  induction b as [| |x k IH|ord inner IHi k IHk]; intros s s' r t R W.
-  - simpl in R. inversion R; subst. split; [auto|split; [intros ?; reflexivity|auto]].
-  - simpl in R. inversion R; subst. split; [auto|split; [intros ?; reflexivity|auto]].
-  - simpl in R. destruct (run k s) as [[s1 r1] t1] eqn:E. inversion R; subst. eapply IH; eauto.
-  - rewrite run_nest in R. destruct (enter s ord) as [s1 fs] eqn:En.
-    assert (Es1 : s1 = fst (enter s ord)) by (rewrite En; reflexivity).
-    assert (Efs : fs = funcs_of s ord) by (unfold enter in En; inversion En; reflexivity).
-    destruct (run inner s1) as [[s2 r2] t2] eqn:Ei.
-    destruct (enter_wfp s ord W) as (W1 & V1 & V1'). rewrite <- Es1 in *.
-    destruct (IHi _ _ _ _ Ei W1) as (W2 & S12 & V2).
-    remember (leave s2 fs) as s3 eqn:Es3.
-    assert (W3 : wfp s3 /\ same_sites s s3 /\ (vm s -> vm s3)).
-    { assert (S3 : same_sites s s3).
-      { intros x. rewrite Es3, Efs, (leave_sites s ord s2 W W2) by auto.
-        destruct W as (Wsites & _).
-        destruct (in_dec site_eq_dec x ord) as [I|I].
-        - destruct (site_val s x) eqn:Ev; auto.
-          rewrite S12, Es1. apply enter_sites_other; auto. intros [_ H]. rewrite Ev in H. discriminate.
-        - rewrite S12, Es1. apply enter_sites_other; auto. intros [H _]. contradiction. }
-      split; [|split; auto].
-      - destruct W as (Wsites & M0 & M1). destruct W2 as (_ & M0' & M1').
-        split; [|split].
-        + intros x. destruct (Wsites x) as (f & Hf & Hk). exists f. split; auto. now rewrite S3.
-        + rewrite Es3. now rewrite leave_fmod.
-        + rewrite Es3. now rewrite leave_fmod.
-      - intros V. unfold vm. rewrite Es3, leave_fmod. apply V2. auto. }
-    destruct W3 as (W3 & S3 & V3).
-    destruct r2.
-    + cbv zeta in R. inversion R; subst. split; [exact W3|split; [exact S3|exact V3]].
-    + cbv zeta in R. destruct (run k s3) as [[s4 r4] t4] eqn:Ek. inversion R; subst.
-      destruct (IHk _ _ _ _ Ek W3) as (W4 & S34 & V4).
-      refine (conj W4 (conj _ (fun V => V4 (V3 V)))). intros x. etransitivity; [apply S34 | apply S3].
+  intros H. destruct k as [m a].
+  destruct m, a; try reflexivity;
+    solve [ exfalso; apply (H S_make_dual); reflexivity | exfalso; apply (H S_wrap_grad); reflexivity
+          | exfalso; apply (H S_add_batch); reflexivity ].
 Qed.
 
-(* exceptions propagate: the body raises iff the context raises *)
-Lemma with_retain_raises ord b s :
-  snd (fst (with_retain_ltype ord b s)) = snd (fst (run b (fst (enter s ord)))).
+Lemma leave_site s s2 x : getattr (leave s2 (snd (enter s))) (site_key x) = Some (site_val s x).
+Proof. destruct x; reflexivity. Qed.
+
+Lemma leave_other s s2 k : (forall x, k <> site_key x) -> getattr (leave s2 (snd (enter s))) k = getattr s2 k.
 Proof.
-  unfold with_retain_ltype. rewrite run_nest. destruct (enter s ord) as [s1 fs]. cbn [fst].
+  intros H. destruct k as [m a].
+  destruct m, a; try reflexivity;
+    solve [ exfalso; apply (H S_make_dual); reflexivity | exfalso; apply (H S_wrap_grad); reflexivity
+          | exfalso; apply (H S_add_batch); reflexivity ].
+Qed.
+
+Lemma enter_fmods s : fmods (fst (enter s)) = fmods s. Proof. reflexivity. Qed.
+Lemma leave_fmods s s2 : fmods (leave s2 (snd (enter s))) = fmods s2. Proof. reflexivity. Qed.
+
+Lemma key_site_dec (k : key) : {x | k = site_key x} + {forall x, k <> site_key x}.
+Proof.
+  destruct k as [m a].
+  destruct m, a; try (right; intros []; discriminate);
+    [left; exists S_make_dual | left; exists S_wrap_grad | left; exists S_add_batch]; reflexivity.
+Qed.
+
+(* every behaviour of the body, any nesting depth: every module attribute and every __module__ is
+   afterwards what it was before *)
+Theorem run_restores : forall b s s' r t, run b s = (s', r, t) -> sites_defined s ->
+  same_attrs s s' /\ fmods s' = fmods s.
+Proof.
+  induction b as [| |x k IH|inner IHi k IHk]; intros s s' r t R W.
+  - simpl in R. inversion R; subst. split; [intros ?|]; reflexivity.
+  - simpl in R. inversion R; subst. split; [intros ?|]; reflexivity.
+  - simpl in R. destruct (run k s) as [[s1 r1] t1] eqn:E. inversion R; subst. eapply IH; eauto.
+  - rewrite run_nest in R. destruct (enter s) as [s1 saved] eqn:En.
+    assert (Es1 : s1 = fst (enter s)) by (rewrite En; reflexivity).
+    assert (Esv : saved = snd (enter s)) by (rewrite En; reflexivity).
+    destruct (run inner s1) as [[s2 r2] t2] eqn:Ei.
+    assert (W1 : sites_defined s1) by (rewrite Es1; apply enter_sites_defined).
+    destruct (IHi _ _ _ _ Ei W1) as (A12 & F12).
+    remember (leave s2 saved) as s3 eqn:Es3.
+    assert (A3 : same_attrs s s3).
+    { intros kk. rewrite Es3, Esv. destruct (key_site_dec kk) as [[x ->]|Hk].
+      - rewrite leave_site. symmetry. now apply site_val_defined.
+      - rewrite leave_other by exact Hk. rewrite (A12 kk), Es1. now apply enter_other. }
+    assert (F3 : fmods s3 = fmods s) by (rewrite Es3, Esv, leave_fmods, F12, Es1; apply enter_fmods).
+    assert (W3 : sites_defined s3) by (intros x; rewrite (A3 (site_key x)); apply W).
+    cbv zeta in R. destruct r2.
+    + inversion R; subst. auto.
+    + destruct (run k s3) as [[s4 r4] t4] eqn:Ek. inversion R; subst.
+      destruct (IHk _ _ _ _ Ek W3) as (A34 & F34). split.
+      * intros k0. etransitivity; [apply A34 | apply A3].
+      * congruence.
+Qed.
+
+Lemma with_retain_raises b s :
+  snd (fst (with_retain_ltype b s)) = snd (fst (run b (fst (enter s)))).
+Proof.
+  unfold with_retain_ltype. rewrite run_nest. destruct (enter s) as [s1 saved]. cbn [fst].
   destruct (run b s1) as [[s2 r] t]. destruct r; reflexivity.
 Qed.
 
-(* ---- one level, from a state in which the patching has been used before: everything observable
-   (every module attribute, every __module__) is as before *)
-Fixpoint flat (b : body) : bool :=
-  match b with BRet | BRaise => true | BCall _ k => flat k | BNest _ _ _ => false end.
-Lemma run_flat : forall b s, flat b = true -> fst (fst (run b s)) = s.
+Lemma fmod_of_fmods s s' f : fmods s' = fmods s -> fmod s' f = fmod s f.
+Proof. intros H. unfold fmod. now rewrite H. Qed.
+
+Theorem retain_ltype_restores b s : sites_defined s ->
+  let '(s', raised, _) := with_retain_ltype b s in
+  (forall k, getattr s' k = getattr s k) /\ (forall f, fmod s' f = fmod s f) /\
+  raised = snd (fst (run b (fst (enter s)))).
 Proof.
-  induction b; intros s H; simpl in *; auto; try discriminate.
-  specialize (IHb s H). destruct (run b s) as [[s' r] t]. exact IHb.
+  intros W. pose proof (with_retain_raises b s) as R.
+  destruct (with_retain_ltype b s) as [[s' r] t] eqn:E. simpl in R.
+  destruct (run_restores _ _ _ _ _ E W) as (A & F).
+  split; [exact A|]. split; [|exact R]. intros f. now apply fmod_of_fmods.
 Qed.
 
-Definition clean (s : pstate) : Prop :=
-  (forall x, getattr s (site_key x) = Some (Orig x)) /\ vm s /\
-  fmod s (Orig S_make_dual) = M_forward_ad /\ fmod s (Orig S_wrap_grad) = M_eager.
+Lemma pristine_defined : sites_defined pristine.
+Proof. intros []; discriminate. Qed.
 
-Lemma clean_wfp s : clean s -> wfp s.
-Proof. intros (G & _ & M0 & M1). split; [|auto]. intros x. exists (Orig x). auto. Qed.
+(* calls inside go through exactly as many wrapper layers as there are enclosing contexts *)
+Example layers_example :
+  snd (with_retain_ltype (BCall S_add_batch (BNest (BCall S_add_batch BRaise) BRet)) pristine)
+  = [(S_add_batch, 1); (S_add_batch, 2)].
+Proof. reflexivity. Qed.
 
-Theorem one_level_restores_everything ord b s : clean s -> flat b = true ->
-  let s' := fst (fst (with_retain_ltype ord b s)) in same_attrs s s' /\ same_mods s s'.
-Proof.
-  intros C F. pose proof (clean_wfp s C) as W. destruct C as (G & V & M0 & M1).
-  unfold with_retain_ltype. rewrite run_nest.
-  destruct (enter s ord) as [s1 fs] eqn:En.
-  assert (Es1 : s1 = fst (enter s ord)) by (rewrite En; reflexivity).
-  assert (Efs : fs = funcs_of s ord) by (unfold enter in En; inversion En; reflexivity).
-  pose proof (run_flat b s1 F) as Rf. destruct (run b s1) as [[s2 r] t]. simpl in Rf. subst s2.
-  assert (SV : forall x, site_val s x = Orig x) by (intros x; unfold site_val; now rewrite G).
-  assert (FM : forall g, fmod s1 g = fmod s g).
-  { intros g. rewrite Es1, enter_fmod, SV. destruct (fn_eqb (Orig S_add_batch) g) eqn:E; auto.
-    apply fn_eqb_eq in E. subst g. symmetry. exact V. }
-  assert (KEY : forall x, fn_key s1 (Orig x) = site_key x).
-  { intros x. unfold fn_key. rewrite FM. destruct x; simpl; unfold vm in V; now rewrite ?M0, ?M1, ?V. }
-  assert (R : same_attrs s (leave s1 fs) /\ same_mods s (leave s1 fs)).
-  { split.
-    - intros k.
-      destruct (in_dec key_eq_dec k (map site_key ord)) as [I|I].
-      + apply in_map_iff in I. destruct I as (x & <- & I).
-        rewrite G. apply leave_getattr_same.
-        * rewrite Efs. unfold funcs_of. apply in_map_iff. exists x. auto.
-        * apply KEY.
-        * intros g _ Hk. now apply fn_key_site in Hk.
-      + rewrite leave_getattr_other.
-        * rewrite Es1. unfold enter. simpl. rewrite patch_all_getattr; [reflexivity|].
-          intros f Hf Hk. apply I. rewrite Efs in *. clear Efs.
-          unfold funcs_of in Hf. apply in_map_iff in Hf. destruct Hf as (x & <- & Hx).
-          rewrite SV in Hk. apply in_map_iff. exists x. split; auto.
-          rewrite <- Hk. unfold fn_key. rewrite fmod_set_module, SV.
-          destruct x; simpl; unfold vm in V; now rewrite ?M0, ?M1, ?V.
-        * intros f Hf Hk. apply I. rewrite Efs in Hf.
-          unfold funcs_of in Hf. apply in_map_iff in Hf. destruct Hf as (x & <- & Hx).
-          rewrite SV in Hk. apply in_map_iff. exists x. split; auto. rewrite <- Hk. symmetry. apply KEY.
-    - intros g. rewrite leave_fmod. apply FM. }
-  destruct r; exact R.
-Qed.
-
-(* ---- refutations on the faithful model *)
+(* ---- history: the code before fix 084bc81 *)
 Definition std_ord : list site := [S_make_dual; S_wrap_grad; S_add_batch].
-(* first use after import: _add_batch_dim.__module__ is changed for good *)
-Lemma module_rewrite_persists :
-  let s' := fst (fst (with_retain_ltype std_ord BRet pristine)) in
+(* first use after import: _add_batch_dim.__module__ was changed for good *)
+Lemma old_module_rewrite_persists :
+  let s' := fst (fst (with_retain_ltype_old std_ord BRet pristine)) in
   fmod pristine (Orig S_add_batch) = M_predispatch /\ fmod s' (Orig S_add_batch) = M_vmap.
 Proof. split; reflexivity. Qed.
-(* nesting (jacrev inside jacrev): new attributes named `wrapper` stay behind *)
-Lemma nested_leaks_attributes :
-  let s' := fst (fst (with_retain_ltype std_ord (BNest std_ord BRet BRet) normal)) in
+(* nesting (jacrev inside jacrev): new attributes named `wrapper` stayed behind *)
+Lemma old_nested_leaks_attributes :
+  let s' := fst (fst (with_retain_ltype_old std_ord (BNest BRet BRet) normal)) in
   getattr normal (M_vmap, A_wrapper) = None /\ getattr normal (M_lietensor, A_wrapper) = None /\
   getattr s' (M_vmap, A_wrapper) = Some (Wrap 2 (Orig S_add_batch)) /\
   getattr s' (M_lietensor, A_wrapper) = Some (Wrap 1 (Orig S_wrap_grad)).
 Proof. repeat split; reflexivity. Qed.
 
 (* ---- the statements cited by Props/C06.v *)
-Theorem retain_ltype_restores ord b s : wfp s ->
-  let '(s', raised, _) := with_retain_ltype ord b s in
-  wfp s' /\ same_sites s s' /\ raised = snd (fst (run b (fst (enter s ord)))).
-Proof.
-  intros W. pose proof (with_retain_raises ord b s) as R.
-  destruct (with_retain_ltype ord b s) as [[s' r] t] eqn:E. simpl in R.
-  destruct (run_inv _ _ _ _ _ E W) as (W' & S & _). auto.
-Qed.
-
-Lemma pristine_wfp : wfp pristine.
-Proof. split; [|split; reflexivity]. intros []; eexists; (split; [reflexivity|auto]). Qed.
-Lemma normal_clean : clean normal.
-Proof. split; [|repeat split]. intros []; reflexivity. Qed.
-
 Theorem pure_ops (D : Type) (d0 : D) (K : nat -> list D -> D) (Cnd : nat -> list D -> bool) :
   (forall cx cy X Y, post_args D d0 (p_binop D K cx cy) [X; Y] = [X; Y]) /\
   (forall X, post_args D d0 (p_unop D K) [X] = [X]) /\
@@ -544,34 +322,40 @@ Theorem pure_ops (D : Type) (d0 : D) (K : nat -> list D -> D) (Cnd : nat -> list
   (forall cx cy X a, post_args D d0 (p_retr D K cx cy) [X; a] = [X; a]) /\
   (forall X o, post_args D d0 (p_add D K) [X; o] = [X; o]) /\
   (forall n X, post_args D d0 (p_cumops D K n) [X] = [X]) /\
+  (forall X, post_args D d0 (p_quat2unit D K Cnd) [X] = [X]) /\
   (forall X, post_args D d0 (p_quat2unit_other D) [X] = [X]) /\
-  (forall has_M n A b x M, post_args D d0 (p_cg D K Cnd false has_M n) [A; b; x; M] = [A; b; x; M]) /\
-  (forall (e_longer r64 e64 : bool) rs rp es ep, (if e_longer then e64 else r64) = false ->
-     post_args D d0 (p_ape D K r64 e64 e_longer) [rs; rp; es; ep] = [rs; rp; es; ep]).
+  (forall s1 s2, post_args D d0 (p_matching D K) [s1; s2] = [s1; s2]) /\
+  (forall (e_longer r64 e64 : bool) rs rp es ep,
+     post_args D d0 (p_ape D K r64 e64 e_longer) [rs; rp; es; ep] = [rs; rp; es; ep]) /\
+  (forall has_x has_M n A b x M, post_args D d0 (p_cg D K Cnd has_x has_M n) [A; b; x; M] = [A; b; x; M]).
 Proof.
   repeat split; intros; apply pure_if_check_empty; simpl length;
     first [ apply binop_check | apply unop_check | apply slice_check | apply self_check
-          | apply retr_check | apply add_check | apply cumops_check | apply quat2unit_other_check
-          | apply cg_check | now apply ape_check_f32 ].
+          | apply retr_check | apply add_check | apply cumops_check | apply quat2unit_check
+          | apply quat2unit_other_check | apply matching_check | apply ape_check | apply cg_check ].
 Qed.
 
-
-(* ---- the refutations in the form "some input is changed" *)
+(* ---- history: before the fixes some input was changed *)
 Open Scope Q_scope.
-Theorem matching_refuted : exists stamps_1 stamps_2 offset,
-  post_args (list Q) [] (p_matching (list Q) (K_matching offset)) [stamps_1; stamps_2] <> [stamps_1; stamps_2].
+Theorem matching_old_refuted : exists stamps_1 stamps_2 offset,
+  post_args (list Q) [] (p_matching_old (list Q) (K_matching offset)) [stamps_1; stamps_2] <> [stamps_1; stamps_2].
 Proof. exists [0], [0], 1. rewrite matching_witness. intro H. inversion H. Qed.
 
-Theorem quat2unit_refuted : forall (normalize : list Q -> list Q) (zero_detected : nat -> list (list Q) -> bool),
+Theorem quat2unit_old_refuted : forall (normalize : list Q -> list Q) (zero_detected : nat -> list (list Q) -> bool),
   normalize [0; 0; 0; 2] = [0; 0; 0; 1] ->
-  exists input, post_args (list Q) [] (p_quat2unit (list Q) (K_quat2unit normalize 0 4) zero_detected) [input] <> [input].
+  exists input, post_args (list Q) [] (p_quat2unit_old (list Q) (K_quat2unit normalize 0 4) zero_detected) [input] <> [input].
 Proof.
   intros normalize zd Hn. exists [0; 0; 0; 2]. rewrite quat2unit_witness. simpl. rewrite Hn. simpl.
   intro H. inversion H.
 Qed.
 
-Theorem cg_refuted : exists A b x M,
-  map (map Qred) (post_args (list Q) [] (p_cg (list Q) K_cg1 (C_cg1 (1 # 100000)) true false 10%nat) [A; b; x; M])
+Theorem cg_old_refuted : exists A b x M,
+  map (map Qred) (post_args (list Q) [] (p_cg_old (list Q) K_cg1 (C_cg1 (1 # 100000)) true false 10%nat) [A; b; x; M])
   <> map (map Qred) [A; b; x; M].
 Proof. exists [1], [1], [0], []. rewrite cg_witness. vm_compute. intro H. inversion H. Qed.
+
+(* and the repaired functions on the same inputs *)
+Lemma cg_same_input_kept :
+  post_args (list Q) [] (p_cg (list Q) K_cg1 (C_cg1 (1 # 100000)) true false 10%nat) [[1]; [1]; [0]; []] = [[1]; [1]; [0]; []].
+Proof. vm_compute. reflexivity. Qed.
 Close Scope Q_scope.
